@@ -29,10 +29,14 @@ CFG = {
     theorems=[P+"C04", P+"C04_some_direction", P+"C04_start_held"],
     text="Theorems (all pairs of hashed real trees: any contents, spans nested / partially overlapping / disjoint / empty, any level structure): both diffs empty implies equal content; if contents differ some direction reports a range; every reported range starts at a key the peer holds. Tied by exhaustive ordered-pair streams (all contents over 4-5 keys x all level assignments) and the implementation-side oracle.",
     assumptions=[A_TOTAL, A_LVL, A_CF, A_MODEL]),
- "C05": dict(streams=S("dsmall","drand","srand"), level="translation_validation", theorems=[],
-    text="(being proved) model tied by exhaustive pair streams + implementation oracle.", assumptions=[A_MODEL]),
- "C06": dict(streams=S("srand","drand"), level="translation_validation", theorems=[],
-    text="(being proved) model tied by pair streams.", assumptions=[A_MODEL]),
+ "C05": dict(streams=S("dsmall","drand","srand"), level="proof",
+    theorems=[P+"C05_progress", P+"C05_rounds", P+"C05_quiescent", P+"C05_reachable"],
+    text="Theorems on the replica model (Model/Sync.lean: store + incrementally maintained tree; pull = hash both, serialise, diff, fetch ranges, merge, upsert): for replicas with different content a pull in at least one direction changes the receiver (join and peer-wins); n >= number of disagreeing keys two-way rounds end with equal stores and equal root hashes; under join the result is the pointwise join; converged replicas exchange nothing. The replica model itself is tied to the real code by the srand stream (schedules executed on real trees and on the model, ranges / fetched keys / stores / root hashes compared).",
+    assumptions=[A_TOTAL, A_LVL, "NoCollisions: no digest collision among page pre-images during the run", "values are identified with their digests; merge = max on a linear order, or peer-wins", A_MODEL]),
+ "C06": dict(streams=S("srand","drand"), level="proof",
+    theorems=[P+"C06_refine", P+"C06_safe", P+"C06_live"],
+    text="PARTIAL in scope (join merge; atomic pulls), full in the quantifiers it covers: for ANY number of replicas and ANY schedule of writes and pulls (theorem, unbounded): no panic and every replica's tree mirrors its store at every step whatever its cache state (refinement); under join nothing is lost or invented (safety); after writes stop, n*|ops|+1 sweeps pulling between all ordered pairs in any order bring every replica to the join of everything written with equal root hashes (liveness). Peer-wins with >= 3 replicas admits fair non-converging schedules at the store level (noted in the file), two-replica peer-wins is C05. Stale in-flight snapshots are exercised by the srand stream only.",
+    assumptions=[A_TOTAL, A_LVL, "NoCollisions", "join (max) merge; pulls atomic; values identified with their digests", A_MODEL]),
  "C07": dict(streams=S("dsmall","drand"), level="proof",
     theorems=[P+"C07", P+"C07_empty_local"],
     text="Theorems: under the span condition every peer entry the local tree lacks or holds with another digest lies in a returned range (soundness of every consistent mark via Merkle injectivity + contiguity of sub-pages; the whole peer span is marked inconsistent at the first iteration; reduce keeps bad minus good); an empty replica obtains the whole span.",
